@@ -11,6 +11,7 @@ mod s_determ;
 mod s_engine;
 mod s_expr;
 mod s_limits;
+mod s_symbols;
 mod s_versions;
 
 use std::env;
@@ -34,6 +35,7 @@ fn main() {
         "chain" => s_chain::run(&opts),
         "chainpost" => s_chain::post(&opts),
         "versions" => s_versions::run(&opts),
+        "symbols" => s_symbols::run(&opts),
         other => {
             eprintln!("unknown stream {other}");
             std::process::exit(2);
